@@ -62,7 +62,9 @@ def dry_vs_real(task):
     roots = {p for p in removed if not any(q != p and p.startswith(q + b"/") and q in removed for q in removed)}
     cwd = world["cwd"]
     absol = lambda p: p if p.startswith(b"/") else cwd.rstrip(b"/") + b"/" + p
-    printed_existing = {absol(p).rstrip(b"/") for p in printed if absol(p).rstrip(b"/") in before}
+    # (paths are printed as the trash directory was spelled: resolve them as the kernel would)
+    from ..model import phys_resolve
+    printed_existing = {phys_resolve(before, absol(p)) for p in printed if phys_resolve(before, absol(p)) in before}
     ok = printed_existing == roots and snap_to_state(dry["after"]) == snap_to_state(dry["before"])
     return {"skip": False, "ok": ok, "printed": len(printed), "removed": len(roots),
             "detail": None if ok else {"printed_not_removed": sorted(map(repr, printed_existing - roots))[:5],
